@@ -138,6 +138,13 @@ func c11Defs(thorough bool) []c11Def {
 			}
 		}
 	}
+	// names with characters that mean something to a path, to Printf or to efivarfs' own listing
+	// ('/' is shown as '!' there): the file is <dir>/<Name>-<GUID> with the name as it is
+	for _, n := range []string{"a/b", "a!b", "a\\b", "a b", "%s%d", "\u00fc-\u00f6", "Boot0001-"} {
+		for _, m := range []uint32{0x07, 0x27, 0x47} {
+			d = append(d, c11Def{n, guids[0], m})
+		}
+	}
 	return d
 }
 
@@ -440,6 +447,17 @@ func c11Run(c *hx.Ctx, tier, unit string) {
 						c.Sample(map[string]any{"api": api, "dir": dir, "name": d.name, "guid": refFormat(d.guid), "attrs": d.attrs, "value": v.name})
 					}
 					c11Write(c, api, dir, d, v.name, v.m, v.enc)
+				}
+				// values that begin with the very attribute mask the write puts in front of them
+				if api != "Efivarfs.WriteSignedUpdate" && !(api == "efi.WriteEFIVariable" && di >= len(c11Predefined) && d.attrs != 0) {
+					mask := d.attrs
+					if api == "efi.WriteEFIVariable" {
+						mask = uint32(efi.ValidAttributes[d.name])
+					}
+					for _, tail := range [][]byte{nil, {0xde, 0xad, 0xbe}} {
+						val := append(binary.LittleEndian.AppendUint32(nil, mask), tail...)
+						c11Write(c, api, dir, d, fmt.Sprintf("raw value of %d bytes that begins with the variable's own attribute mask", len(val)), rawval(val), val)
+					}
 				}
 			}
 		}
